@@ -2,7 +2,8 @@
 import re
 
 from .. import lib, mir
-from ..mir import render
+from .. import lib_sec as S
+from ..mir import render, strip_generics
 
 EXPLANATION = ("PeerId: MAX_INLINE_KEY_LENGTH == 42 and the multihash codes 0x00 / 0x12; from_public_key inlines iff encoded length <= the same "
                "constant that from_multihash uses (with <=) to accept identity multihashes; from_multihash's table over (code, digest "
@@ -15,6 +16,10 @@ CONFIGS = [{"name": "identity-all-keys", "packages": ["libp2p-identity"], "featu
 I = "libp2p_identity"
 NAMES = {"Ed25519": "ed25519", "Rsa": "rsa", "RSA": "rsa", "Secp256k1": "secp256k1", "Ecdsa": "ecdsa"}
 
+SELFTEST = [
+    {"mutation": "ed25519::PublicKey::try_from_bytes: `.map_err(..)?` -> `.expect(..)`", "caught_by": "nopanic/ed25519::PublicKey::try_from_bytes: panic-capable `unwrap` site (expect) is on the allow-list"},
+    {"neutral": "neutral/sec/07 (`<=` -> `>` with swapped branches); `MAX >= digest().len()`; renamed parameter of from_multihash", "silent": True},
+]
 
 def check(ctx):
     prog = ctx.prog
@@ -23,31 +28,47 @@ def check(ctx):
     shc = prog.const(I, r"peer_id::MULTIHASH_SHA256_CODE$").get("v")
     ctx.ob("const", "MAX_INLINE_KEY_LENGTH == 42", mx == 42, msg=str(mx))
     ctx.ob("const", "multihash codes identity=0x00 sha2-256=0x12", idc == 0 and shc == 0x12, msg="%s %s" % (idc, shc))
-    fp = ctx.body(I, r"peer_id::PeerId::from_public_key$")
+    fp = S.canon_args(ctx.body(I, r"peer_id::PeerId::from_public_key$"), ["key"])
     wraps = fp.call_sites(r"multihash::Multihash::wrap$")
     ctx.floor("peerid", "Multihash::wrap", wraps, 2)
-    LE = r"^Le\(std::vec::Vec::len\(.*encode_protobuf\(key\)\), const:libp2p_identity::peer_id::MAX_INLINE_KEY_LENGTH\)$"
+
+    def enc_of_key(e):
+        e = S.peel(e)
+        return e[0] == "call" and re.search(r"PublicKey::encode_protobuf$", strip_generics(e[1])) is not None and S.is_arg(S.peel(e[2][0]), 1)
+    is_enc_len = lambda e: e[0] == "call" and re.search(r"::len$", strip_generics(e[1])) is not None and len(e[2]) == 1 and enc_of_key(e[2][0])
+    is_max = lambda e: S.is_const(e, mx, r"peer_id::MAX_INLINE_KEY_LENGTH$")
+    fits = S.rel_edges(fp, is_enc_len, is_max)
     for s in wraps:
         e = fp.site_expr(s)
-        code = render(e[2][0])
-        if code.endswith("MULTIHASH_IDENTITY_CODE"):
-            ctx.guarded("peerid", "identity (inline) multihash iff encoding <= 42 bytes", s, lambda c, r, l: l == "true" and re.match(LE, r) is not None, "key_enc.len() <= MAX_INLINE_KEY_LENGTH")
-            ctx.ob("peerid", "inlined digest is the encoded key", "encode_protobuf(key)" in render(e[2][1]) and "Digest" not in render(e[2][1]), s.loc(), render(e[2][1])[:120])
-        elif code.endswith("MULTIHASH_SHA256_CODE"):
-            ctx.guarded("peerid", "sha2-256 multihash iff encoding > 42 bytes", s, lambda c, r, l: l == "false" and re.match(LE, r) is not None, "key_enc.len() > MAX_INLINE_KEY_LENGTH")
-            ctx.ob("peerid", "hashed digest is SHA-256 of the encoded key", "digest(" in render(e[2][1]).lower() and "encode_protobuf(key)" in render(e[2][1]), s.loc(), render(e[2][1])[:160])
+        code = S.cval(e[2][0])
+        if code == idc and code is not None:
+            S.guarded(ctx, "peerid", "identity (inline) multihash iff encoding <= 42 bytes", s, fits["le"], "key_enc.len() <= MAX_INLINE_KEY_LENGTH")
+            ctx.ob("peerid", "inlined digest is the encoded key", enc_of_key(e[2][1]), s.loc(), render(e[2][1])[:120])
+        elif code == shc and code is not None:
+            S.guarded(ctx, "peerid", "sha2-256 multihash iff encoding > 42 bytes", s, fits["gt"], "key_enc.len() > MAX_INLINE_KEY_LENGTH")
+            dg = S.peel(e[2][1])
+            ctx.ob("peerid", "hashed digest is SHA-256 of the encoded key", dg[0] == "call" and re.search(r"[Dd]igest", strip_generics(dg[1])) is not None and len(dg[2]) >= 1 and enc_of_key(dg[2][-1]), s.loc(), render(e[2][1])[:160])
         else:
-            ctx.ob("peerid", "known multihash code", False, s.loc(), code)
-    fm = ctx.body(I, r"peer_id::PeerId::from_multihash$")
+            ctx.ob("peerid", "known multihash code", False, s.loc(), render(e[2][0]))
+    fm = S.canon_args(ctx.body(I, r"peer_id::PeerId::from_multihash$"), ["multihash"])
     res = [mir.Site(fm, x[1], x[2]) for x in fm.defs[0]]
+    DLEN = r"core::slice::len\(multihash::Multihash::digest\(multihash\)\)"
+    MAXK = r"const:libp2p_identity::peer_id::MAX_INLINE_KEY_LENGTH"
+
+    def ref(a):
+        if a["short"] == a["long"]:
+            return None          # `short` and `long` are the two polarities of the same test; inconsistent cells do not exist
+        return "Ok(same multihash)" if a["code"] == shc or (a["code"] == idc and a["short"] == "true") else "Err"
     lib.check_cells(ctx, "peerid", "from_multihash", fm, res,
                     lambda s: "Ok(same multihash)" if render(fm.site_expr(s)) == "std::result::Result::Ok{0: libp2p_identity::peer_id::PeerId::PeerId{multihash: multihash}}" else ("Err" if render(fm.site_expr(s)) == "std::result::Result::Err{0: multihash}" else "?"),
-                    [(r"^multihash::Multihash::code\(multihash\)$", "code"), (r"^Le\(core::slice::len\(multihash::Multihash::digest\(multihash\)\), const:libp2p_identity::peer_id::MAX_INLINE_KEY_LENGTH\)$", "short")],
-                    {"code": [18, 0, "otherwise"], "short": ["true", "false"]},
-                    lambda a: "Ok(same multihash)" if a["code"] == 18 or (a["code"] == 0 and a["short"] == "true") else "Err", "%s:%d" % (fm.file, fm.line))
-    fb = ctx.body(I, r"peer_id::PeerId::from_bytes$")
+                    [(r"^multihash::Multihash::code\(multihash\)$", "code"),
+                     (r"^Le\(%s, %s\)$|^Ge\(%s, %s\)$" % (DLEN, MAXK, MAXK, DLEN), "short"), (r"^Gt\(%s, %s\)$|^Lt\(%s, %s\)$" % (DLEN, MAXK, MAXK, DLEN), "long")],
+                    {"code": [shc, idc, "otherwise"], "short": ["true", "false"], "long": ["true", "false"]}, ref, "%s:%d" % (fm.file, fm.line))
+    fb = S.canon_args(ctx.body(I, r"peer_id::PeerId::from_bytes$"), ["data"])
     cs = fb.call_sites(r"peer_id::PeerId::from_multihash$")
-    ok = len(cs) == 1 and "multihash::Multihash::from_bytes(data)" in render(fb.site_expr(cs[0]))
+    a0 = S.norm(fb.site_expr(cs[0])[2][0]) if len(cs) == 1 else ("unknown", "")
+    ok = (len(cs) == 1 and a0[0] == "call" and a0[1] == "ok" and a0[2][0][0] == "call" and re.search(r"multihash::Multihash::from_bytes$", strip_generics(a0[2][0][1])) is not None
+          and S.is_arg(S.peel(a0[2][0][2][0]), 1))
     ctx.ob("peerid", "from_bytes = from_multihash(Multihash::from_bytes(data)?)", ok, "%s:%d" % (fb.file, fb.line), render(fb.site_expr(cs[0]))[:160] if cs else "")
     fs = ctx.body(I, r"<peer_id::PeerId as std::str::FromStr>::from_str$")
     cs = fs.call_sites(r"peer_id::PeerId::from_bytes$")
@@ -61,7 +82,7 @@ def check(ctx):
         e = enc.site_expr(s)
         f = dict(e[4])
         t = re.search(r"KeyType::(\w+)::\{constant#0\}", render(f.get("type")))
-        v = re.search(r"publickey@(\w+)\.0", render(f.get("data")))
+        v = re.search(r"@(Ed25519|Rsa|Secp256k1|Ecdsa)\.0", render(f.get("data")))
         m = re.search(r"libp2p_identity::(\w+)::PublicKey::", render(f.get("data")))
         if t and v and m:
             enc_tab[v.group(1)] = (t.group(1), m.group(1))
@@ -75,7 +96,7 @@ def check(ctx):
         e = te.site_expr(s)
         f = dict(e[4])
         t = re.search(r"KeyType::(\w+)::\{constant#0\}", render(f.get("type")))
-        v = re.search(r"keypair@(\w+)\.0", render(f.get("data")))
+        v = re.search(r"@(Ed25519|Rsa|Secp256k1|Ecdsa)\.0", render(f.get("data")))
         if t and v:
             enc_tab[v.group(1)] = (t.group(1), NAMES.get(v.group(1), "?"))
     td = ctx.body(I, r"keypair::Keypair::from_protobuf_encoding$")
@@ -89,15 +110,32 @@ def check(ctx):
     # ---- panic inventory
     entries = [fb, fs, fm, ctx.body(I, r"keypair::PublicKey::try_decode_protobuf$"), dec, td, kt]
     inv, seen = lib.panic_inventory(prog, I, entries, depth=2)
-    ceil = {"index": (3, "fixed-size array/slice splits after explicit length checks in key modules (ed25519 try_from_bytes on 32/64-byte inputs; rsa/ecdsa/secp256k1 modules when enabled)"),
-            "slice": (4, "copy_from_slice between equal-length buffers after length check"),
-            "unwrap": (4, "expect on infallible conversions of already length-checked data / multihash sized 64"),
-            "assert:bounds": (6, "ecdsa::PublicKey::del_asn1_header: constant indices 0..3 into sub-slices obtained with get(..4)?, get(4..4+oids_len)?, get(..+3)? — lengths established by the ?-checked get")}
-    if ctx.config == "default":
-        ceil = {"index": (1, "ed25519::Keypair::try_from_bytes splits a length-checked 64-byte buffer"), "slice": (2, "ed25519 copy of length-checked buffers"),
-                "unwrap": (2, "infallible expect after explicit length check"), "assert:bounds": (0, "")}
-    counts = lib.check_inventory(ctx, "nopanic", "decode entry points", inv, ceil, seen)
-
+    # per-site allow-list (function, kind, max sites, operand shape, reason): every other panic-capable site reachable from a
+    # decode entry point is a violation (no slack for a new `expect`/`unwrap`/index on attacker-controlled bytes)
+    allow = [
+        (r"^libp2p_identity::ecdsa::PublicKey::del_asn1_header$", "assert:bounds", 6, None,
+         "constant indices 0..3 into sub-slices obtained with get(..4)?, get(4..4+oids_len)?, get(..+3)? — lengths established by the ?-checked get"),
+        (r"^libp2p_identity::ecdsa::PublicKey::del_asn1_header$", "index", 2,
+         lambda b, s: S.has_call(b.site_expr(s)[2][0], r"slice::get$|slice::<impl \[T\]>::get$"),
+         "constant sub-range of the slice returned by asn1_buf.get(4..4+oids_len)? (length established by the ?-checked get)"),
+    ]
+    used = {}
+    for b, k, det, s in inv:
+        hit = None
+        for i, (fn, kind, mxn, shape, why) in enumerate(allow):
+            if kind == k and re.search(fn, b.npath) and (shape is None or (s.term["k"] == "call" and shape(b, s))):
+                hit = i
+                break
+        if hit is not None:
+            used[hit] = used.get(hit, 0) + 1
+        ok = hit is not None and used[hit] <= allow[hit][2]
+        ctx.ob("nopanic", "%s: panic-capable `%s` site (%s) is on the allow-list" % (b.short[-60:], k, det), ok, s.loc(),
+               ("allowed: " + allow[hit][4]) if ok else "decode of untrusted bytes reaches a panic-capable site that is not (or no longer) covered by the allow-list")
+    for bn in seen:
+        ctx.bodies.add(bn)
+    need = [r"ed25519::PublicKey::try_from_bytes$", r"peer_id::PeerId::from_multihash$", r"keypair::PublicKey::try_decode_protobuf$"]
+    ctx.ob("nopanic", "floor:decode path bodies inspected", all(any(re.search(n, x) for x in seen) for n in need) and len(seen) >= 20, nontrivial=False,
+           msg="%d bodies reachable from the decode entry points; %d panic-capable sites" % (len(seen), len(inv)))
 
 def decode_table(ctx, body, ctor_pat):
     """KeyType label -> module whose parser the Ok path calls, or ('missing', name) when the arm returns Err(missing_feature(name))."""
